@@ -122,8 +122,12 @@ class Report:
         if new_v:
             rdir = os.path.join(evdir, 'replay')
             os.makedirs(rdir, exist_ok=True)
+            printed = set()
             for v in new_v:
                 h = hashlib.sha256((v.key() + v.where).encode()).hexdigest()[:10]
+                if (v.key(), v.where, v.msg) in printed:
+                    continue          # the same finding reached through several contexts is reported once
+                printed.add((v.key(), v.where, v.msg))
                 path = os.path.join(rdir, '%s-%s.json' % (self.pid, h))
                 with open(path, 'w') as f:
                     json.dump({'property': self.pid, 'rule': v.rule, 'where': v.where, 'site': v.site, 'message': v.msg, 'witness': v.witness}, f, indent=1, default=str)
